@@ -56,7 +56,8 @@ static Val oneRequest(FilesystemHandler &handler, const QString &base, QByteArra
         QPointer<Socket> guard(s);
         QObject::connect(s, &Socket::headersParsed, [&handler, s, path]() { handler.route(s, path); });
         QByteArray head = "GET /x HTTP/1.1\r\n";
-        for (auto &kv : hdrs.l) head += kv.at(0).asBytes() + ": " + kv.at(1).asBytes() + "\r\n";
+        for (auto &kv : hdrs.l) if (kv.at(0).asBytes() == ":method") head = kv.at(1).asBytes() + " /x HTTP/1.1\r\n";     // no header: the request method
+        for (auto &kv : hdrs.l) if (kv.at(0).asBytes() != ":method") head += kv.at(0).asBytes() + ": " + kv.at(1).asBytes() + "\r\n";
         head += "\r\n";
         tcp->feed(head);
         for (int i = 0; i < 64 && !closed; ++i) QCoreApplication::processEvents();
